@@ -101,6 +101,20 @@ def run(ctx):
 
     graphs = {q: CFG(repo.func(q)) for q in (VALIDATE, HEADER, GROUP, VALUE)}
 
+    # per-instance caches keyed by an equality that identifies different sets: the layout of one group would be served for another group of the same name
+    for cname, c in repo.classes.items():
+        if not getattr(c, "_module").rel.endswith("protocol/schema.py"):
+            continue
+        cached = [m for m in c.body if isinstance(m, (ast.FunctionDef, ast.AsyncFunctionDef)) and any(re.search(r"(lru_cache|\bcache\b|cached_property)", unparse(d)) and "cached_property" not in unparse(d) for d in m.decorator_list)]
+        if not cached:
+            continue
+        eqf = repo.mro_func(cname, "__eq__")
+        same_family = eqf is not None and re.search(r"isinstance\(\w+, (SchemaSet|SchemaGroup|SchemaComponent|SchemaMessage)\)", unparse(eqf)) is not None
+        ctx.instance(R2, f"{cname}.{cached[0].name}[cache keyed by a name-based equality]", not same_family,
+                     f"{cname}.{cached[0].name} is memoised per instance with functools, but {cname}.__eq__/__hash__ identify different sets of the same name: the result "
+                     "computed for the first group validated is served for every other group with that name (other messages, other dictionaries)", loc(cached[0]))
+
+
     # ------------------------------------------------------------------ rule 1
     n1 = 0
     roles_g = group_roles(repo.func(GROUP))
